@@ -25,7 +25,7 @@ From Coquelicot Require Import Coquelicot.   (* RInt for the accuracy statements
 From Flocq Require Import Core.   (* bpow, radix2 for the float statements; imported first so that [float] below is PrimFloat.float *)
 From Coq Require Import PrimFloat.
 From Coq Require Import ZArith List Bool Reals Lra Permutation.
-From BZ Require Import Base.Ops Gen.Point Gen.Affine Gen.Line Gen.Quad Gen.Cubic Proofs.C04 Proofs.C15float Base.FloatErr Proofs.C01float.
+From BZ Require Import Base.Ops Gen.Point Gen.Affine Gen.Line Gen.Quad Gen.Cubic Proofs.C04 Proofs.C15float Base.FloatErr Proofs.C01float Proofs.C04add.
 Import ListNotations.
 From BZ Require Proofs.C10flat Proofs.C04poly Proofs.C04acc.
 Open Scope R_scope.
@@ -168,6 +168,21 @@ Proof. exact @C04acc.gentle_arc_accuracy. Qed.
 Theorem C04_gentle_quad_accuracy :
   Rabs (Quad_length ROps C04acc.gentle_quad - C10flat.quad_arclen C04acc.gentle_quad 0 1) <= / 10 ^ 6 * C10flat.quad_arclen C04acc.gentle_quad 0 1.
 Proof. exact @C04acc.gentle_quad_accuracy. Qed.
+Theorem C04_cubic_speed_left :
+  forall (s : seg4 R) t u, 0 <= t -> cubic_speed (fst (Cubic_splitAtTime ROps s t)) u = t * cubic_speed s (u * t).
+Proof. exact cubic_speed_left. Qed.
+Theorem C04_cubic_speed_right :
+  forall (s : seg4 R) t u, t <= 1 -> cubic_speed (snd (Cubic_splitAtTime ROps s t)) u = (1 - t) * cubic_speed s (t + u * (1 - t)).
+Proof. exact cubic_speed_right. Qed.
+Theorem C04_cubic_arclen_left :
+  forall (s : seg4 R) t, 0 <= t -> C10flat.cubic_arclen (fst (Cubic_splitAtTime ROps s t)) 0 1 = C10flat.cubic_arclen s 0 t.
+Proof. exact cubic_arclen_left. Qed.
+Theorem C04_cubic_arclen_right :
+  forall (s : seg4 R) t, t <= 1 -> C10flat.cubic_arclen (snd (Cubic_splitAtTime ROps s t)) 0 1 = C10flat.cubic_arclen s t 1.
+Proof. exact cubic_arclen_right. Qed.
+Theorem C04_cubic_length_additive_gentle :
+  forall (s : seg4 R) (m M t : R), 0 < m -> (forall u, 0 <= u <= 1 -> m <= cubic_speed s u <= M) -> M <= 2 * m -> 0 < t < 1 -> let l := fst (Cubic_splitAtTime ROps s t) in let r := snd (Cubic_splitAtTime ROps s t) in Rabs (Cubic_length ROps s - (Cubic_length ROps l + Cubic_length ROps r)) <= 4 / 10 ^ 4 * C10flat.cubic_arclen s 0 1.
+Proof. exact cubic_length_additive_gentle. Qed.
 
 Print Assumptions C04_cubic_length_is_gl.
 Print Assumptions C04_quad_length_is_gl.
@@ -215,3 +230,8 @@ Print Assumptions C04_quad_length_accuracy_2.
 Print Assumptions C04_gentle_arc_speed.
 Print Assumptions C04_gentle_arc_accuracy.
 Print Assumptions C04_gentle_quad_accuracy.
+Print Assumptions C04_cubic_speed_left.
+Print Assumptions C04_cubic_speed_right.
+Print Assumptions C04_cubic_arclen_left.
+Print Assumptions C04_cubic_arclen_right.
+Print Assumptions C04_cubic_length_additive_gentle.
